@@ -647,6 +647,7 @@ func (g *gen) compression() {
 		for _, sign := range []bool{false, true} {
 			c := babyjub.PackSignY(sign, y)
 			g.add("bj.decompress %s", hx(c[:]))
+			g.add("bj.decompress@samey %s", hx(c[:]))
 			g.add("bj.pfsy %v %s", sign, y)
 			g.add("bj.packsigny %v %s", sign, y)
 			g.add("bj.unpacksigny %s", hx(c[:]))
@@ -663,14 +664,14 @@ func (g *gen) compression() {
 		p := r.curvePoint()
 		g.add("bj.compress %s", pt(p))
 		c := p.Compress()
-		g.add("bj.decompress@%s %s", []string{"fresh", "dirty"}[r.intn(2)], hx(c[:]))
+		g.add("bj.decompress@%s %s", []string{"fresh", "dirty", "samey"}[r.intn(3)], hx(c[:]))
 		c[31] ^= 0x80
-		g.add("bj.decompress %s", hx(c[:]))
+		g.add("bj.decompress@%s %s", []string{"fresh", "samey"}[r.intn(2)], hx(c[:]))
 		b := r.bytes(32)
 		if r.bool() {
 			b[31] &= 0x3f
 		}
-		g.add("bj.decompress %s", hx(b))
+		g.add("bj.decompress@%s %s", []string{"fresh", "dirty", "samey"}[r.intn(3)], hx(b))
 		g.add("bj.unpacksigny %s", hx(b))
 		y := r.felem(Q)
 		g.add("bj.pfsy %v %s", r.bool(), y)
